@@ -42,12 +42,36 @@ const (
 const (
 	KWrite  = "W"
 	KDelete = "D"
+	KBatch  = "B" // one chronicler.Write call with several treasures (Items)
 	KSync   = "S"
 	KClose  = "C"
 )
 
+// Item is one treasure of a batch.
+type Item struct {
+	Key int   `json:"key"`
+	Val int64 `json:"val"`
+	Del bool  `json:"del,omitempty"`
+}
+
+// ItemsOf returns the treasures a write step hands to chronicler.Write (one for W/D).
+func (st *Step) ItemsOf() []Item {
+	switch st.K {
+	case KBatch:
+		return st.Items
+	case KWrite, KDelete:
+		return []Item{{st.Key, st.Val, st.K == KDelete}}
+	}
+	return nil
+}
+
+// IsWrite: the step is a chronicler.Write call.
+func (st *Step) IsWrite() bool { return st.K == KWrite || st.K == KDelete || st.K == KBatch }
+
 type Step struct {
 	K   string `json:"k"`
+	// Items (K = "B"): the treasures of one chronicler.Write call, in order
+	Items []Item `json:"items,omitempty"`
 	Key int    `json:"key,omitempty"`
 	Val int64  `json:"val,omitempty"`
 	// FaultJ >= 0: lower RLIMIT_FSIZE right before this call to (size of the file before the
@@ -214,11 +238,14 @@ func (r *runner) run() []StepResult {
 			r.before(call, st)
 		}
 		switch st.K {
-		case KWrite, KDelete:
+		case KWrite, KDelete, KBatch:
 			res[i].Opened = !r.open
-			tr := MakeTreasure(st.Key, st.Val, st.K == KDelete)
+			var trs []treasure.Treasure
+			for _, it := range st.ItemsOf() {
+				trs = append(trs, MakeTreasure(it.Key, it.Val, it.Del))
+			}
 			e0 := ErrorRecords()
-			r.ch.Write([]treasure.Treasure{tr})
+			r.ch.Write(trs)
 			res[i].OK = ErrorRecords() == e0
 			r.open = true
 			if res[i].Opened && !res[i].OK && !hydOpen(HydPath(r.dir)) {
@@ -248,6 +275,13 @@ func (r *runner) run() []StepResult {
 // RunInProc runs a fault-free script in this process and returns, per step, the size of the
 // .hyd file after the call (-1 = no file) plus the step results.
 func RunInProc(dir string, s *Script) ([]int64, []StepResult) {
+	sizes, _, res := RunInProcBlocks(dir, s)
+	return sizes, res
+}
+
+// RunInProcBlocks is RunInProc plus, per step, the number of complete blocks in the file
+// after the call.
+func RunInProcBlocks(dir string, s *Script) ([]int64, []int, []StepResult) {
 	r := &runner{dir: dir, s: s}
 	idx := map[*Step]int{}
 	for i := range s.Steps {
@@ -257,15 +291,19 @@ func RunInProc(dir string, s *Script) ([]int64, []StepResult) {
 	for i := range out {
 		out[i] = -2 // skipped
 	}
+	blocks := make([]int, len(s.Steps))
 	r.after = func(_ int, st *Step) {
 		n, ok := fileSize(HydPath(dir))
 		if !ok {
 			n = -1
 		}
 		out[idx[st]] = n
+		if b, err := os.ReadFile(HydPath(dir)); err == nil {
+			_, blocks[idx[st]] = BlockBoundaries(b, s.NLen())
+		}
 	}
 	res := r.run()
-	return out, res
+	return out, blocks, res
 }
 
 // ---- child mode --------------------------------------------------------------------------
